@@ -74,96 +74,107 @@ def tree_has_hook():
 
 def gen_case(rng, tier):
     """A history: 1-2 devices, a few objects, 2-5 variables per kind in use; operations weighted towards
-    swap, self-assignment, free-then-copy, drop of ring head vs tail, device free with live children."""
+    swap, self-assignment, free-then-copy, drop of ring head vs tail, device free with live children.
+    The generator tracks which variables hold a wrapper, so that most operations apply."""
     maxlen = 18 if tier == "quick" else 30
     n = rng.randint(1, maxlen)
     nvars = {k: rng.randint(2, len(v)) for k, v in VARS.items()}
     nvars["D"] = rng.choice([1, 1, 2])
     use = {k: VARS[k][:nvars[k]] for k in VARS}
     live = set()      # variables that currently hold a wrapper
-    toks = ["nd:D0"]
-    live.add("D0")
+    toks = []
     focus = rng.choice(["M", "M", "M", "P", "P", "mixed", "mixed", "K", "S", "T", "D"])
 
-    def pick(kind, want_live=None):
-        cand = use[kind]
-        if want_live is True:
-            c2 = [v for v in cand if v in live]
-            if c2 and rng.random() < 0.93:
-                return rng.choice(c2)
-        if want_live is False:
-            c2 = [v for v in cand if v not in live]
-            if c2 and rng.random() < 0.9:
-                return rng.choice(c2)
-        return rng.choice(cand)
+    def lives(kind):
+        return [v for v in use[kind] if v in live]
+
+    def create(kind, into=None):
+        """emit a creating operation for a variable of this kind"""
+        if kind == "D":
+            v = into or rng.choice(use["D"])
+            toks.append("nd:" + v); live.add(v); return v
+        if not lives("D"):
+            create("D")
+        d = rng.choice(lives("D"))
+        if kind == "M":
+            v = into or rng.choice(use["M"])
+            z = rng.random()
+            if z < 0.45 or (z < 0.75 and not lives("P") and rng.random() < 0.5):
+                toks.append("nm:%s:%s:%d" % (v, d, rng.choice([16, 64, 100])))
+            elif z < 0.75:
+                if not lives("P"):
+                    create("P")
+                toks.append("nr:%s:%s" % (v, rng.choice(lives("P"))))
+            elif lives("M"):
+                toks.append("sl:%s:%s" % (v, rng.choice(lives("M"))))
+            else:
+                toks.append("nm:%s:%s:%d" % (v, d, 64))
+        elif kind == "P":
+            v = into or rng.choice(use["P"]); toks.append("np:%s:%s" % (v, d))
+        elif kind == "K":
+            v = into or rng.choice(use["K"]); toks.append("nk:%s:%s" % (v, d))
+        elif kind == "S":
+            v = into or rng.choice(use["S"]); toks.append(("ns:%s:%s" if rng.random() < 0.6 else "gs:%s:%s") % (v, d))
+        else:
+            v = into or rng.choice(use["T"]); toks.append("nt:%s:%s" % (v, d))
+        live.add(v)
+        return v
+
+    def a_live(kind):
+        if not lives(kind) or rng.random() < 0.04:
+            if rng.random() < 0.9:
+                return create(kind)
+            return rng.choice(use[kind])          # now and then an empty variable (skipped by the drivers)
+        return rng.choice(lives(kind))
+
+    def an_empty(kind):
+        c = [v for v in use[kind] if v not in live]
+        if c and rng.random() < 0.92:
+            return rng.choice(c)
+        return rng.choice(use[kind])
 
     def kind_choice():
         if focus == "mixed":
             return rng.choice("MMMPPKSTD")
         return focus if rng.random() < 0.7 else rng.choice("MMPPKSTD")
 
+    create("D", "D0")
     for _ in range(n):
         x = rng.random()
         k = kind_choice()
-        if x < 0.22:
-            # create
-            d = pick("D", True)
-            y = rng.random()
-            if y < 0.08:
-                v = pick("D"); toks.append("nd:" + v); live.add(v)
-            elif k == "M" or (k == "D" and y < 0.5):
-                z = rng.random()
-                v = pick("M", False if rng.random() < 0.6 else None)
-                if z < 0.45:
-                    toks.append("nm:%s:%s:%d" % (v, d, rng.choice([16, 64, 100])))
-                elif z < 0.75:
-                    toks.append("nr:%s:%s" % (v, pick("P", True)))
-                else:
-                    toks.append("sl:%s:%s" % (v, pick("M", True)))
-                live.add(v)
-            elif k == "P":
-                z = rng.random()
-                if z < 0.5:
-                    v = pick("P", False if rng.random() < 0.6 else None); toks.append("np:%s:%s" % (v, d)); live.add(v)
-                else:
-                    v = pick("M", False if rng.random() < 0.6 else None); toks.append("nr:%s:%s" % (v, pick("P", True))); live.add(v)
-            elif k == "K":
-                v = pick("K"); toks.append("nk:%s:%s" % (v, d)); live.add(v)
-            elif k == "S":
-                v = pick("S"); toks.append(("ns:%s:%s" if rng.random() < 0.6 else "gs:%s:%s") % (v, d)); live.add(v)
-            elif k == "T":
-                v = pick("T"); toks.append("nt:%s:%s" % (v, d)); live.add(v)
-            else:
-                v = pick("D"); toks.append("nd:" + v); live.add(v)
-        elif x < 0.37:
-            a, b = pick(k, False), pick(k, True)
+        if x < 0.20:
+            create(k, an_empty(k) if rng.random() < 0.6 else None)
+        elif x < 0.36:
+            b = a_live(k); a = an_empty(k)
             toks.append("cp:%s:%s" % (a, b))
-            if b in live:
+            if a not in live and b in live:
                 live.add(a)
-        elif x < 0.52:
-            a = pick(k, True)
-            b = a if rng.random() < 0.15 else pick(k, True)      # self-assignment
+        elif x < 0.51:
+            a = a_live(k)
+            b = a if rng.random() < 0.15 else a_live(k)      # self-assignment
             toks.append("as:%s:%s" % (a, b))
         elif x < 0.66:
             kk = k if k in "MP" else rng.choice("MMP")
-            a = pick(kk, True)
-            b = a if rng.random() < 0.1 else pick(kk, True)
+            a = a_live(kk)
+            b = a if rng.random() < 0.1 else a_live(kk)
+            if len(lives(kk)) < 2 and rng.random() < 0.7:
+                b = create(kk, an_empty(kk))
             toks.append("sw:%s:%s" % (a, b))
         elif x < 0.76:
-            a = pick(k, True)
+            a = a_live(k)
             toks.append("fr:" + a)
             if rng.random() < 0.4:                               # free-then-copy
-                b = pick(k, False)
+                b = an_empty(k)
                 toks.append("cp:%s:%s" % (b, a))
-                if a in live:
+                if b not in live and a in live:
                     live.add(b)
-        elif x < 0.92:
-            a = pick(k, True)
+        elif x < 0.91:
+            a = a_live(k)
             toks.append("dr:" + a); live.discard(a)
-        elif x < 0.96:
-            toks.append("du:" + pick(k, True))
+        elif x < 0.955:
+            toks.append("du:" + a_live(k))
         else:
-            toks.append("fr:" + pick("D", True))                 # device free with live children
+            toks.append("fr:" + a_live("D"))                     # device free with live children
     # every history ends by dropping all variables (in random order), then the sweep
     rest = [v for v in sum(use.values(), []) if v in live]
     rng.shuffle(rest)
